@@ -20,7 +20,7 @@ INT = {"i8": (-128, 127, "I8"), "u8": (0, 255, "U8"), "i16": (-2**15, 2**15 - 1,
 KW = [b"MAX", b"MAXimum", b"maximum", b"MAXIMUM", b"MaXiMuM", b"MIN", b"MINIMUM", b"minimum", b"DEF", b"DEFAULT", b"default", b"DeFaUlT", b"UP", b"up", b"DOWN", b"down", b"Down",
       b"MAXI", b"MAXIMU", b"MAXIMUMM", b"MINI", b"DEFA", b"DEFAUL", b"DEFAULTS", b"U", b"UPP", b"DOW", b"DOWNN", b"UP1", b"MAX1", b"DEF1", b"MA", b"INF", b"NINF", b"NAN", b"ON", b"X", b"MAXa", b"DEFa", b"UPa", b"UP_", b"DOWNa", b"MAXIMUMa", b"NANa"]
 KW = KW + [x for k in (b"MAXimum", b"MINimum", b"DEFault", b"UP", b"DOWN") for x in keyword_near_misses(k)]
-OTHER = [b"'str'", b"#13abc", b"(1)", b"#HFF", b"1 V", b"1e3 HZ", b"1.5", b"-0.5", b"1e400", b"0.0", b"16777217.0", b"16777217", b"1.6777217e7", b"2147483647.0", b"4294967295.0", b"-2147483648.0",
+OTHER = [b"'MAX'", b'"MAX"', b"'DEF'", b'"DEFAULT"', b"'UP'", b'"down"', b"'MINimum'", b"#13MAX", b"(MAX)", b"#HDEF", b"'str'", b"#13abc", b"(1)", b"#HFF", b"1 V", b"1e3 HZ", b"1.5", b"-0.5", b"1e400", b"0.0", b"16777217.0", b"16777217", b"1.6777217e7", b"2147483647.0", b"4294967295.0", b"-2147483648.0",
          b"33554433.0", b"9007199254740993.0", b"65535.0", b"255.0", b"127.0", b"-128.0", b"1e9", b"123456789.0"]
 
 
